@@ -70,7 +70,12 @@ def set_history():
     return {"package": "inkayaku_engine_core", "append_to": "engine_core/src/engine/zobrist_history.rs", "module": _read("kani/history.rs")}
 
 
+def set_ucimove():
+    return {"package": "inkayaku_uci", "append_to": "uci/src/uci.rs", "module": _read("kani/ucimove.rs")}
+
+
 SETS = {
+    "ucimove": set_ucimove,
     "history": set_history,
     "square": set_square,
     "eval": set_eval,
@@ -91,6 +96,9 @@ def _table_harnesses():
 
 HARNESSES = {
     "tables": _table_harnesses(),
+    "ucimove": {
+        "uci_move_from_str_ascii_le5": {"complete": False, "bound": "ASCII strings of length <= 5 (every well-formed move text has length 4 or 5)", "note": "real UciMove::from_str incl. str::chars decoding and the error closures"},
+    },
     "history": {
         "count_repetitions_bounded_10": {"complete": False, "bound": "current ply index < 10 (symbolic hashes for plies 0..9, any u16 half-move clock); loops unwound 12 times with unwinding assertions",
                                          "note": "bounded stand-in next to the unbounded Verus proof of unit history"},
